@@ -94,10 +94,10 @@ impl Monitor for C09 {
         "cases = seeded hint-free universes (conflict-poor, tiny, soft lists, constrains-heavy), 1-3 successive problems solved on ONE solver so that the provider log spans solves; an online trace checker consumes every provider event: get_dependencies only for soft solvables or matching candidates of a requirement obtained earlier in the log, get_candidates only for names mentioned by dependencies obtained earlier, each call at most once per solver; when the reference first-choice closure exists (C07 precondition, first problem, no soft) the fetched sets must be EXACTLY the closure / the names it and the root mention. distinct = content hash; non-trivial = distinct conflict-free case in which at least one lower-ranked candidate existed and stayed unfetched".into()
     }
     fn cases(&self, tier: Tier) -> u64 {
-        tier.pick(60_000, 3_000_000)
+        tier.pick(480_000, 9_600_000)
     }
     fn floor(&self, tier: Tier) -> u64 {
-        tier.pick(2_000, 100_000)
+        tier.pick(8_000, 80_000)
     }
     fn generate(&self, r: &mut Rng, _tier: Tier, _i: u64) -> C09Case {
         let (name, cfg) = pick_family(r, FAMILIES);
